@@ -124,6 +124,58 @@ def ascendPut (p v : Bytes) (t : Tree) : List (Bytes × Bytes) × Tree :=
   let es := ascendPrefix t p
   (es, es.foldl (fun t e => replace e.1 v t) t)
 
+/-! ### structural mutation during a scan (outside the documented use: no in-repo caller does it)
+
+Inserting a *fresh* key from inside a running `AscendPrefix` rewrites `left`/`right` of nodes the iterator still holds
+(unzip). The iterator keeps node pointers; nodes of existing keys keep their identity under an insert, so a held node is
+"the node of key `y` in the current tree", and the loop reads its *current* right link when it is popped. -/
+
+/-- the node object of key `y` in the current tree -/
+def nodeAt (y : Bytes) : Tree → Tree
+  | nil => nil
+  | node l k v rk r =>
+    match Bytes.cmp y k with
+    | .eq => node l k v rk r
+    | .lt => nodeAt y l
+    | .gt => nodeAt y r
+
+def keyOf : Tree → Bytes
+  | nil => []
+  | node _ k _ _ _ => k
+
+/-- left spine as held node identities (keys), top first after pushing -/
+def pushLeftKeys : Tree → List Bytes → List Bytes
+  | nil, s => s
+  | node l k _ _ _, s => pushLeftKeys l (k :: s)
+
+/-- the rest of the scan over the mutated tree `t`, the stack holding node identities -/
+def walkKeys (p : Bytes) (t : Tree) : Nat → List Bytes → List (Bytes × Bytes)
+  | 0, _ => []
+  | _ + 1, [] => []
+  | fuel + 1, y :: s =>
+    match nodeAt y t with
+    | nil => walkKeys p t fuel s
+    | node _ k v _ r => if Bytes.hasPrefix k p then (k, v) :: walkKeys p t fuel (pushLeftKeys r s) else []
+
+/-- `for n := range AscendPrefix(p) { if first { Put(fresh k) } }`: at the first yielded node a key that is not in the
+tree is inserted with the given rank (nothing is done when the key exists); what the scan yields, and the tree -/
+def ascendInsert (p k v : Bytes) (rank : Nat) (t : Tree) : List (Bytes × Bytes) × Tree :=
+  match seek p t [] with
+  | [] => ([], t)
+  | top :: rest =>
+    match top with
+    | nil => ([], t)
+    | node _ k0 v0 _ _ =>
+      if Bytes.hasPrefix k0 p then
+        let t' := match get k t with
+          | some _ => t
+          | none => insert k v rank t
+        let stack := (match nodeAt k0 t' with
+          | nil => []
+          | node _ _ _ _ r => pushLeftKeys r []) ++ rest.map keyOf
+        ((k0, v0) :: walkKeys p t' ((size t' + 1) * (rest.length + 2)) stack, t')
+      else ([], t)
+
 /-! specification: a strictly ascending association list -/
 def specPut (k v : Bytes) : List (Bytes × Bytes) → List (Bytes × Bytes)
   | [] => [(k, v)]
